@@ -56,4 +56,18 @@ CHECKS = {
         assumptions=["a non-nil empty slice planted in Options is exercised for crash-freedom only (the decoder never produces it)"],
         exhaustive_note="every raw length 0..64 per accessor",
     ),
+    "C15": dict(
+        title="DHCPv4 reply and request builders correlate with the packet they answer",
+        stages=[dict(name="bld", shards=S16, timeout={"quick": 600, "thorough": 3000})],
+        rule="each case: an input packet (generated over the C01 domain or decoded from generated non-canonical wire bytes; any opcode/flags/giaddr; options 82, 61, 54, 55 present with a value, "
+             "present empty or absent), one of the 6 exported builders, and 0..4 user modifiers drawn from all 24 exported With* functions (list cross-checked against a source scan of /repo/dhcpv4 at "
+             "check time), including ones colliding with a default. Shape = (builder, input source, opcode class, presence of 82/61/54/55, sorted modifier names); non-trivial iff a modifier is used or "
+             "option 82/61 carries a value.",
+        technique="field-level reference model of the builders' documented defaults and of every With* modifier, evaluated online against the real builders (model-based runtime monitor)",
+        level_text="(1) the build without user modifiers is checked against the fields the statement names (flipped opcode, xid, htype, chaddr, flags, giaddr, byte-exact echo/omission of options 82 and 61, "
+                   "option 50/54/xid for request-from-offer, type/ciaddr/unicast/PRL for renew, release, inform, discover); (2) the build with user modifiers must equal the model's 'defaults, then the "
+                   "user modifiers in order' on every field and option.",
+        level_note="Trusts the modifier models in harness/c15 (written from the modifiers' documentation). Opcodes other than 1/2 have no 'opposite' and are exercised for crash-freedom only; offers with a nil YourIPAddr are unjudged for option 50.",
+        assumptions=["an option present with a non-nil empty slice is normalised to the decoder's form (nil) before the call"],
+    ),
 }
